@@ -249,8 +249,9 @@ def _plan(prop, tier):
         else:
             n = s.shards
         for i in range(n):
-            jobs.append((s.name, i, n))
-    return jobs
+            jobs.append((s.name, i, n, 0 if isinstance(s, Custom) else 1))
+    jobs.sort(key=lambda j: j[3])   # long-running custom phases first
+    return [j[:3] for j in jobs]
 
 
 def replay_one(prop, path):
@@ -358,6 +359,9 @@ def run(pid, tier, seed, replay=None):
     samples = samples[:N_SAMPLES + 3]
 
     fdir = os.path.join(ROOT, "failures", pid)
+    if os.path.isdir(fdir):
+        for fn in os.listdir(fdir):
+            os.unlink(os.path.join(fdir, fn))
     for sig in sorted(failures):
         cnt, msg, case = failures[sig]
         os.makedirs(fdir, exist_ok=True)
